@@ -43,6 +43,9 @@ func (r *Run) ev(s string) {
 	if s == "UChk" || strings.HasPrefix(s, "(UAct") {
 		r.Rep = append(r.Rep, s)
 	}
+	if strings.HasPrefix(s, "(USignal KError") {
+		r.Rep = append(r.Rep, "S") // a non-fatal falsification: every enclosing machine must stop at its next decision point
+	}
 	switch {
 	case s == "UCustomBegin":
 		r.draws = append(r.draws, 0)
